@@ -126,6 +126,10 @@ class _Parameter:
 
     def __set__(self, instance, value):
         self._checker(value)
+        if isinstance(value, np.ndarray) and value.dtype.kind in "iu":
+            # parameters are real numbers: an integer-typed field would wrap around in the
+            # products the laws are made of (E**2 with E in Pa exceeds the int64 range)
+            value = value.astype(float)
         instance.__dict__[self.__name] = value
         if isinstance(instance, Updatable):
             instance.Need_Update()
